@@ -136,7 +136,7 @@ func ruleC11Wire(e *Env) {
 	for k, name := range map[int]string{5: "month", 6: "day"} {
 		construct := fmt.Sprintf("byte %d", k)
 		c, ok := pred.Canon(wire.Elems[k].V)
-		if ok && c.Root == "d."+name && c.C == 1 {
+		if ok && c.Root == "d."+name && c.C == 1 && (c.Width == 0 || c.Width == 8) { // all eight bits of the field
 			e.S.Ok(rule, site, construct, name+"+1", e.Pos(mb))
 		} else {
 			e.S.Bad(rule, site, construct, fmt.Sprintf("byte %d is %v, the format stores %s+1 (one-based)", k, canonVal(wire.Elems[k].V), name), e.Pos(mb), "")
@@ -199,7 +199,8 @@ func ruleC11Wire(e *Env) {
 	}
 	for i, name := range []string{"year", "month", "day"} {
 		c, ok := pred.Canon(sv.Fields[i])
-		if ok && c.Root == "d."+name && c.C == 0 {
+		fw := map[int]int{0: 32, 1: 8, 2: 8}[i] // no truncation below the field's own width on the way
+		if ok && c.Root == "d."+name && c.C == 0 && (c.Width == 0 || c.Width == fw) {
 			e.S.Ok("C11.inv", usite, name, fmt.Sprintf("Unmarshal(Marshal(d)).%s = d.%s (identity modulo 2^%d)", name, name, map[int]int{0: 32, 1: 8, 2: 8}[i]), e.Pos(ub))
 		} else {
 			e.S.Bad("C11.inv", usite, name, fmt.Sprintf("after the round trip %s = %v, not d.%s", name, canonVal(sv.Fields[i]), name), e.Pos(ub), "")
